@@ -448,54 +448,79 @@ def run_check(prop, suites, tier, seed, level_note, trusted_extra=(), replay=Non
         else:
             corpus = load_corpus(prop, suite.name)
             cases = corpus + list(suite.gen(tier, rng))
+        nm_total = ns_total = ncases = ncrashed = 0
+        escalated = 0
+        disagreeing = []
         cos = []
-        crashed = []
-        for c in cases:
-            try:
-                o = suite.run(c)
-            except Exception as e:  # the runner itself must not raise: that is a harness/impl surprise
-                o = {"harness_exception": exc_class(e), "trace": traceback.format_exc()[-800:]}
-            if isinstance(o, dict) and "harness_exception" in o:
-                # the library raised where every modelled run returns a value or one of the documented exceptions that
-                # the runner maps itself: the property cannot hold on this input as stated -> a violation with the
-                # input as replay (never passed to Coq: the judges have no encoding for it)
-                crashed.append((c, o))
-                continue
-            cos.append((c, o))
-            suite.stats(c, o, acc)
-            if suite.nontrivial(c, o):
-                distinct.add(canon_hash([suite.name, c]))
-        total += len(cos) + len(crashed)
-        for c, o in crashed:
-            violations.append(("spec", suite, c, o, None))
-        if not getattr(suite, "exhaustive", False):
-            exhaustive = False
-        codes, errors = evaluate_suite(prop, suite, cos, workdir) if cos else ([], [])
-        for path, rc, txt in errors:
-            violations.append(("coq-eval", suite, None, None, f"{path} rc={rc}: {txt}"))
-        nm = ns = 0
-        for (c, o), code in zip(cos, codes):
-            if code is None or code == 0:
-                continue
-            if code in (2, 3):
-                ns += 1
-                kid = suite.known(c, o)
-                if kid and kid in known:
-                    known_hits.setdefault(kid, 0)
-                    known_hits[kid] += 1
+        for rnd in (0, 1):
+            if rnd == 1:
+                # a broken correspondence with no failing input so far: search harder before reporting `no-failing-input-found`
+                # (the suite proposes further inputs around the disagreement, pre-filtered by an untrusted heuristic; the verdict on
+                # each is still the Coq judge's)
+                if os.environ.get("VERIF_DEBUG"):
+                    print("   (escalation test:", replay is None, nm_total, ns_total, hasattr(suite, "escalate"), ")")
+                if not (replay is None and nm_total > 0 and ns_total == 0 and hasattr(suite, "escalate")):
+                    break
+                cases = list(suite.escalate(tier, rng, disagreeing))
+                escalated = len(cases)
+                if not cases:
+                    break
+            cos = []
+            crashed = []
+            for c in cases:
+                try:
+                    o = suite.run(c)
+                except Exception as e:  # the runner itself must not raise: that is a harness/impl surprise
+                    o = {"harness_exception": exc_class(e), "trace": traceback.format_exc()[-800:]}
+                if isinstance(o, dict) and "harness_exception" in o:
+                    # the library raised where every modelled run returns a value or one of the documented exceptions that
+                    # the runner maps itself: the property cannot hold on this input as stated -> a violation with the
+                    # input as replay (never passed to Coq: the judges have no encoding for it)
+                    crashed.append((c, o))
                     continue
+                cos.append((c, o))
+                suite.stats(c, o, acc)
+                if suite.nontrivial(c, o):
+                    distinct.add(canon_hash([suite.name, c]))
+            total += len(cos) + len(crashed)
+            for c, o in crashed:
                 violations.append(("spec", suite, c, o, None))
-            elif code == 1:
-                nm += 1
-                if suite.informative:
-                    notes.append(f"{suite.name}: model/implementation disagreement on an informative unit-level case")
-                else:
-                    violations.append(("corr", suite, c, o, None))
+            if not getattr(suite, "exhaustive", False):
+                exhaustive = False
+            codes, errors = evaluate_suite(prop, suite, cos, workdir) if cos else ([], [])
+            for path, rc, txt in errors:
+                violations.append(("coq-eval", suite, None, None, f"{path} rc={rc}: {txt}"))
+            nm = ns = 0
+            for (c, o), code in zip(cos, codes):
+                if code is None or code == 0:
+                    continue
+                if code in (1, 3):
+                    disagreeing.append(c)
+                if code in (2, 3):
+                    ns += 1
+                    kid = suite.known(c, o)
+                    if kid and kid in known:
+                        known_hits.setdefault(kid, 0)
+                        known_hits[kid] += 1
+                        continue
+                    violations.append(("spec", suite, c, o, None))
+                elif code == 1:
+                    nm += 1
+                    if suite.informative:
+                        notes.append(f"{suite.name}: model/implementation disagreement on an informative unit-level case")
+                    else:
+                        violations.append(("corr", suite, c, o, None))
+            nm_total += nm
+            ns_total += ns + len(crashed)
+            ncases += len(cos) + len(crashed)
+            ncrashed += len(crashed)
+        nm, ns = nm_total, ns_total
         if cos and len(samples) < 6:
             samples.append({"suite": suite.name, "case": cos[len(cos) // 2][0], "observed": cos[len(cos) // 2][1]})
-        ns += len(crashed)
-        per_suite[suite.name] = {"cases": len(cos) + len(crashed), "unexpected_exceptions": len(crashed), "model_disagreements": nm, "spec_failures": ns,
+        per_suite[suite.name] = {"cases": ncases, "unexpected_exceptions": ncrashed, "model_disagreements": nm, "spec_failures": ns,
                                  "wall_s": round(time.time() - ts, 1)}
+        if escalated:
+            per_suite[suite.name]["escalated_search_cases"] = escalated
         if acc:
             stats[suite.name] = acc
     # ---- verdict
